@@ -3,6 +3,7 @@
 CACHE <hex ops>            run an operation history against the real `CreateTableStatementGetter` in a fresh temporary
                            directory (ops joined by `;`:  new | nodisk | get:<hex name> | crash:<steps>:<flushed>:<hex name>);
                            same answer format as `lean/MsqModel/Driver/CmdCache.lean`.
+LINTHR <k> <n> <dialect> <hex sql>…   (implementation only) lineage requests from k threads on one shared analyzer, see `cmd_linthr`
 LINH <dialect> <shared|fresh> <hex sql>…   (implementation only) a history of lineage requests in one process, see `cmd_linh`
 LIN <dialect> <hex sql>    (implementation only) table lineage of every SELECT / INSERT…SELECT statement of the text with the
                            provider cold, warm in memory, warm on disk in a new instance, and without a directory: the
@@ -341,4 +342,83 @@ def cmd_linh(parts):
     return "OK " + " ".join(out)
 
 
-COMMANDS = {"CACHE": cmd_cache, "LIN": cmd_lin, "LINH": cmd_linh}
+def cmd_linthr(parts):
+    """LINTHR <k threads> <n rounds> <dialect> <hex statement>…   (implementation only) lineage requests from k threads on ONE shared analyzer and
+    provider.  Reference = every statement alone on a fresh analyzer and provider, computed before AND after the threaded run (they must agree:
+    the analysis is deterministic).  Each thread analyses `n` statements of the pool (thread t starts at statement t and steps by a stride that
+    depends on t); the provider yields the processor at every lookup and the interpreter's switch interval is made tiny, so that calls interleave.
+    A mismatch = a call on the shared analyzer whose lineage differs from the statement's own lineage; the first one is reported with the
+    statements that were in flight at that moment."""
+    import sys, threading, time, io
+    from metasequoia_sql import SQLParser, SQLType
+    from metasequoia_sql.analyzer import tool
+    from metasequoia_sql.analyzer.data_linage.table_lineage_analyzer import TableLineageAnalyzer
+    from metasequoia_sql.core import node as N
+    k, rounds, st = int(parts[1]), int(parts[2]), SQLType[parts[3]]
+    texts = [canon.unhex(h) for h in parts[4:]]
+    stmts = []
+    for t in texts:
+        try:
+            ss = SQLParser.parse_statements(t, sql_type=st)
+        except Exception as e:
+            return "BADPOOL " + canon.err_kind(e)
+        if len(ss) != 1 or not isinstance(ss[0], (N.ASTSelectStatement, N.ASTInsertSelectStatement)):
+            return "BADPOOL statement"
+        stmts.append(ss[0])
+
+    class G(tool.CreateTableStatementGetter):
+        def __init__(self):
+            super().__init__(None)
+
+        def get_statement(self, full_table_name):
+            time.sleep(0)                       # give the other threads a chance at every schema lookup
+            return super().get_statement(full_table_name)
+
+        def get_sql(self, full_table_name):
+            time.sleep(0)
+            return lin_provider(full_table_name)
+
+    def lineage(analyzer, stmt):
+        try:
+            if isinstance(stmt, N.ASTInsertSelectStatement):
+                return "R" + show_lineage(analyzer.get_insert_table_lineage(stmt).all_columns())
+            return "R" + show_lineage(analyzer.get_select_table_lineage(stmt).all_columns())
+        except Exception as e:
+            return "E:" + canon.err_kind(e).replace(" ", "_")
+
+    real_stdout, old_interval = sys.stdout, sys.getswitchinterval()
+    sys.stdout = io.StringIO()                  # the analyzer prints diagnostics before some errors; one swap for the whole run (not per call: threads)
+    try:
+        alone = [lineage(TableLineageAnalyzer(G()), s_) for s_ in stmts]
+        shared = TableLineageAnalyzer(G())
+        inflight, mism, calls = [None] * k, [], [0]
+
+        def work(t):
+            i = t
+            for _ in range(rounds):
+                idx = i % len(stmts)
+                inflight[t] = idx
+                got = lineage(shared, stmts[idx])
+                if got != alone[idx] and len(mism) < 50:
+                    mism.append((idx, got, [x for j, x in enumerate(inflight) if j != t and x is not None]))
+                inflight[t] = None
+                calls[0] += 1
+                i += 1 + (t % 3)
+        sys.setswitchinterval(1e-6)
+        ths = [threading.Thread(target=work, args=(t,)) for t in range(k)]
+        for th in ths: th.start()
+        for th in ths: th.join()
+        sys.setswitchinterval(old_interval)
+        again = [lineage(TableLineageAnalyzer(G()), s_) for s_ in stmts]
+    finally:
+        sys.setswitchinterval(old_interval)
+        sys.stdout = real_stdout
+    if again != alone:
+        return "OK calls=%d mismatches=0 nondeterministic-alone=%d" % (calls[0], sum(1 for x, y in zip(alone, again) if x != y))
+    if not mism:
+        return "OK calls=%d mismatches=0" % calls[0]
+    idx, got, others = mism[0]
+    return "OK calls=%d mismatches=%d first=%s got=%s alone=%s inflight=%s" % (calls[0], len(mism), hx(texts[idx]), got, alone[idx], ",".join(hx(texts[j]) for j in others))
+
+
+COMMANDS = {"CACHE": cmd_cache, "LIN": cmd_lin, "LINH": cmd_linh, "LINTHR": cmd_linthr}
